@@ -16,7 +16,7 @@ RULE = ("kind 'scatter': a random System of 4-9 contributions drawn from rigid b
         "non-trivial = at least two contributions share degrees of freedom (scatter) or the history removes and re-adds a name (registry)")
 ASSUMPTIONS = ["dense reference assembly written independently of cardillo/system.py: loops over system.contributions and adds local results at the contribution's own DOF arrays",
                "systems are assembled with compute_consistent_initial_conditions=False (C16 covers the initial conditions)",
-               "equality up to summation rounding 1e-12*(1+|value|)"]
+               "equality up to summation rounding 1e-12*(1+|value|) + 64 eps * sum|summands| per cell (blocks of one contribution may cancel, e.g. a force law between two points of one body)"]
 REQUIRED_MONITORS = ["scatter.compare", "partition", "reassemble", "recompose.compare", "registry.step"]
 META = {
     "level_text": "Exploration: shadow-state monitors on the real System: a dense reference assembler over random systems, partition and re-assembly snapshots, and a registry model over random add/remove histories. Held on the systems and histories generated.",
@@ -94,6 +94,7 @@ def _reference(system, name, spec, t, q, u, ud, lam, is_mat):
         code, row, meth = spec
         col = None
         out = np.zeros(getattr(system, SIZE[row]))
+    mass = np.zeros_like(out)        # sum of |summands| per cell: the scale of summation-order rounding (blocks may cancel)
     ncontr = 0
     for c in system.contributions:
         f = getattr(c, meth, None)
@@ -122,8 +123,11 @@ def _reference(system, name, spec, t, q, u, ud, lam, is_mat):
             cc = np.atleast_1d(getattr(c, DOFATTR[col]))
             val = np.asarray(val, dtype=float).reshape(len(r), len(cc))
             np.add.at(out, (r[:, None], cc[None, :]), val)
+            np.add.at(mass, (r[:, None], cc[None, :]), np.abs(val))
         else:
             np.add.at(out, r, np.asarray(val, dtype=float).reshape(len(r)))
+            np.add.at(mass, r, np.abs(np.asarray(val, dtype=float).reshape(len(r))))
+    _reference.last_mass = mass
     return out, ncontr
 
 
@@ -241,6 +245,9 @@ def _build_random_system(rng, ctx):
     return system, comp
 
 
+FORMATS = ["coo", "csr", "csc", "array"]
+
+
 def _evaluate_all(system, t, q, u, ud, lam):
     out = {}
     for name, spec in VEC.items():
@@ -248,9 +255,15 @@ def _evaluate_all(system, t, q, u, ud, lam):
             out[name] = np.asarray(getattr(system, name)(*_args(spec[0], None, t, q, u, ud, lam, True)), dtype=float)
         except NotImplementedError:
             out[name] = "NotImplementedError"
+    import inspect
     for name, spec in MAT.items():
         try:
-            out[name] = dense(getattr(system, name)(*_args(spec[0], None, t, q, u, ud, lam, True)))
+            f = getattr(system, name)
+            kw = {}
+            if FORMATS is not None and "format" in inspect.signature(f).parameters:
+                # every documented output format must describe the same matrix
+                kw["format"] = FORMATS[(sum(map(ord, name)) + int(abs(float(t)) * 1000)) % len(FORMATS)]
+            out[name] = dense(f(*_args(spec[0], None, t, q, u, ud, lam, True), **kw))
         except NotImplementedError:
             out[name] = "NotImplementedError"
     out["E_pot"] = np.array([float(system.E_pot(t, q))])
@@ -312,7 +325,7 @@ def run_scatter(spec, ctx):
                 if nc:
                     ctx.cls(f"method:{name}")
                 g = np.asarray(got[name], dtype=float)
-                if g.shape != ref.shape or np.abs(g - ref).max(initial=0.0) > 1e-12 * (1 + np.abs(ref).max(initial=0.0)):
+                if g.shape != ref.shape or np.any(np.abs(g - ref) > 1e-12 * (1 + np.abs(ref).max(initial=0.0)) + 64 * np.finfo(float).eps * _reference.last_mass):
                     ctx.violation(f"System.{name}", "system-level quantity differs from the dense scatter-sum of its contributions",
                                   {"composition": comp, "max_abs_err": float(np.abs(g - ref).max(initial=0.0)) if g.shape == ref.shape else "shape",
                                    "shape": list(g.shape), "ref_shape": list(ref.shape), "contributors": nc})
@@ -373,7 +386,7 @@ def _compare_stage(ctx, S, comp, rng, stage):
             continue
         ctx.mon("recompose.compare")
         g = np.asarray(got[name], dtype=float)
-        if g.shape != ref.shape or np.abs(g - ref).max(initial=0.0) > 1e-12 * (1 + np.abs(ref).max(initial=0.0)):
+        if g.shape != ref.shape or np.any(np.abs(g - ref) > 1e-12 * (1 + np.abs(ref).max(initial=0.0)) + 64 * np.finfo(float).eps * _reference.last_mass):
             ctx.violation(f"System.{name}", "after a change of the composition and a new assemble() the system-level quantity differs from the dense scatter-sum of the current contributions",
                           {"composition": comp, "stage": stage, "max_abs_err": float(np.abs(g - ref).max(initial=0.0)) if g.shape == ref.shape else "shape",
                            "shape": list(g.shape), "ref_shape": list(ref.shape)})
